@@ -155,6 +155,14 @@ pub fn parse(text: &str) -> Result<Program, Fault> {
         }
     }
     addr.push(a);
+    // a jump to the address of a label continues at the label, not at a marker that stands
+    // directly in front of it (a statement that emits no instruction, e.g. a match on a type
+    // without constructors, leaves its marker there)
+    for &i in labels.values() {
+        if i < addr.len() {
+            by_addr.insert(addr[i], i);
+        }
+    }
     Ok(Program { ins, addr, by_addr, labels, first_label })
 }
 
